@@ -15,7 +15,7 @@ from ..run import Acc, Violation, run_given
 ID = "C15"
 LEVEL = "exploration"
 RULE = (
-    "keys: complete product 5 key types x 2 encodings x 2 private formats x 2 public formats (40 combinations), each also as the "
+    "keys: series of 800 generated pairs per NIST curve (200 per Edwards curve), every pair cross-checked (pairs with a leading zero byte in X or Y occur once in 64 pairs); complete product 5 key types x 2 encodings x 2 private formats x 2 public formats (40 combinations), each also as the "
     "second run into a prefix that already holds a (larger or smaller) key pair; convert: keys CONSTRUCTED to hit the boundaries - "
     "private scalars scanned until >= 20 keys per NIST curve have X or Y starting with byte 0x00 (leading zero), 0x04 (the SEC1 "
     "uncompressed-point marker) or ending with 0x00, plus random keys and Ed25519/Ed448 - x layout options (columns 1..40, "
@@ -168,6 +168,11 @@ def parse_c(text, array_name):
         raise Violation(f"array body holds something else than byte literals: {rest.strip()[:40]!r}", "0x.. literals only", bucket="array-junk")
     if re.search(r",\s*,", body) or body.strip().startswith(",") or body.strip().endswith(","):
         raise Violation("array body has an empty element / trailing comma", "well-formed initialiser list", bucket="array-commas")
+    # exactly: literal, comma, literal, ... literal - a missing comma between two literals is as wrong as a doubled one
+    if toks and not re.fullmatch(r"(0[xX][0-9a-fA-F]{2},)*0[xX][0-9a-fA-F]{2}", re.sub(r"\s+", "", body)):
+        flat = re.sub(r"\s+", " ", body).strip()
+        bad = re.search(r"0[xX][0-9a-fA-F]{2}\s+0[xX][0-9a-fA-F]{2}", flat)
+        raise Violation(f"array body is not a comma-separated list of byte literals (near {bad.group(0) if bad else flat[:40]!r})", "well-formed initialiser list", bucket="array-commas")
     return bytes(int(t, 16) for t in toks), m
 
 
@@ -291,6 +296,8 @@ def plan(ctx):
     specs = [{"kind": "keys-product"}, {"kind": "keys-sequences"}, {"kind": "keys-cli", "guard_off": True}]
     for t in CURVES:
         specs.append({"kind": "convert-boundary", "type": t})
+    for t in TYPES:
+        specs.append({"kind": "keys-volume", "type": t, "enc": "pem" if t != "secp384r1" else "der", "n": (800 if t in CURVES else 200) if not ctx.thorough else 20000})
     per = 400 if not ctx.thorough else 4000
     for i in range(5):
         specs.append({"kind": "convert-gen", "i": i, "n": per if i < 4 else 10, "route": "cli" if i == 4 else "main"})
@@ -326,6 +333,39 @@ def run_shard(ctx, spec):
                 _try(acc, "keys", {"runs": [a, b], "reuse": True}, judge_keys, ctx)
             for t in CURVES:
                 _try(acc, "keys", {"runs": [{"type": t, "enc": enc, "priv": "pkcs8", "pub": "default"}, {"type": t, "enc": enc, "priv": "pkcs1", "pub": "default"}], "reuse": True}, judge_keys, ctx)
+    elif kind == "keys-volume":
+        # the generated key is random: properties of rare keys (a public coordinate with leading zero bits occurs once in 2^k pairs)
+        # are only met by volume. Every pair is loaded and cross-checked; pairs with a leading zero BYTE in X or Y are the non-trivial ones.
+        d = ctx.tmpdir("vol")
+        from suit_generator import cmd_keys
+
+        t, enc = spec["type"], spec["enc"]
+        prefix = os.path.join(d, "k")
+        try:
+            for i in range(spec["n"]):
+                if ctx.expired():
+                    break
+                cmd_keys.main(prefix, t, enc, "pkcs8", "default", "none")
+                try:
+                    priv, pub, _, _ = load_pair(prefix, enc)
+                except Exception as e:
+                    acc.fail("keys", {"volume": spec, "i": i}, f"pair {i}: key files do not load: {type(e).__name__}: {e}", "loadable pair", bucket="unloadable")
+                    break
+                rare = []
+                if t in CURVES:
+                    n_ = priv.public_key().public_numbers()
+                    w = (priv.curve.key_size + 7) // 8
+                    rare = [c for c in ("x", "y") if getattr(n_, c).to_bytes(w, "big")[0] == 0]
+                acc.case(nt_key=("volume", t, enc, i) if rare else None, classes=["keys-volume", f"type:{t}"] + (["pair:leading-zero-coordinate"] if rare else []))
+                a = priv.public_key().public_bytes(serialization.Encoding.DER, serialization.PublicFormat.SubjectPublicKeyInfo)
+                b = pub.public_bytes(serialization.Encoding.DER, serialization.PublicFormat.SubjectPublicKeyInfo)
+                if a != b:
+                    acc.fail("keys", {"volume": spec, "i": i, "private_pkcs8_der": priv.private_bytes(serialization.Encoding.DER, serialization.PrivateFormat.PKCS8, serialization.NoEncryption()).hex()},
+                             f"pair {i} of a series of {t} pairs: the public key file does not belong to the private key file"
+                             + (f" (public {''.join(rare)} of the private key starts with 0x00)" if rare else ""), "matching pair", bucket="mismatch")
+                    break
+        finally:
+            shutil.rmtree(d, ignore_errors=True)
     elif kind == "keys-cli":
         for c in combos[::7]:
             _try(acc, "keys", {"runs": [c], "reuse": False, "route": "cli"}, judge_keys, ctx)
@@ -353,6 +393,10 @@ def run_shard(ctx, spec):
 
 def replay(ctx, check, case):
     acc = Acc()
+    if "volume" in case:
+        # a mismatch in a series of random pairs is re-searched with the same volume (the saved private key documents the finding)
+        a2 = run_shard(ctx, dict(case["volume"], kind="keys-volume"))
+        return [f"{f['observed']} (expected {f['expected']})" for f in a2.failures]
     try:
         (judge_keys if check == "keys" else judge_convert)(case, acc, ctx)
     except Violation as v:
@@ -363,6 +407,6 @@ def replay(ctx, check, case):
 def finalize(ctx, m, ev):
     c = m["counters"]
     ev["coverage"]["exhaustive_scope"] = "keys: 40-combination product and all ordered type pairs per encoding enumerated; convert: constructed boundary keys + sampled layouts"
-    for n in ["accepted", "reported-unsupported", "run:1", "prefix:dotted", "existing-output-overwritten", "coord:lead00", "coord:lead04", "coord:tail00", "type:ed448", "custom-layout"]:
+    for n in ["accepted", "reported-unsupported", "run:1", "prefix:dotted", "existing-output-overwritten", "coord:lead00", "coord:lead04", "coord:tail00", "type:ed448", "custom-layout", "keys-volume", "pair:leading-zero-coordinate"]:
         if not c.get(n):
             raise boot.HarnessError(f"interesting class {n} is empty")
